@@ -148,7 +148,7 @@ func (p *Pool) try(rq workerReq) (rec map[string]any, died bool, why string, err
 	}
 	to := p.Timeout
 	if to == 0 {
-		to = 20 * time.Second
+		to = 8 * time.Second
 	}
 	select {
 	case line, ok := <-p.w.lines:
@@ -199,8 +199,18 @@ func (p *Pool) Step(text string, op Op) (rec map[string]any, newText string, err
 			return nil, "", err
 		}
 		if died2 {
-			rec = map[string]any{"k": "step", "in": map[string]any{"text": text, "op": op},
-				"out": map[string]any{"outcome": "fatal", "err": why2}}
+			in := map[string]any{"text": text, "op": op}
+			// classify the input here (no oracle edit is involved in that)
+			if g, err := Compile(text); err == nil {
+				in["feat"] = Features(g, op)
+			}
+			if kp := keyPath(op.Key); kp != nil {
+				in["keyPath"] = kp
+			}
+			if kp := keyPath(op.NewKey); kp != nil && op.Kind == "move" {
+				in["newKeyPath"] = kp
+			}
+			rec = map[string]any{"k": "step", "in": in, "out": map[string]any{"outcome": "fatal", "err": why2}}
 			return rec, "", nil
 		}
 		rec = rec2
